@@ -5,7 +5,7 @@ From Y2 Require Import Model.Registry Model.Compile Spec.Dispatch Proofs.SpecPro
    not_implemented iff some legal tuple of registered classes of some method has no applicable definition, ambiguous iff
    some legal tuple has applicable definitions but no most specific one, the concrete_ counterparts iff such a tuple
    exists among tuples of non-abstract classes only, and cells is the number of multi-method dispatch cells built. *)
-Theorem C17_report : forall R C, wf_registry R -> compile R = Ok C ->
+Theorem C17_report : forall R stale C, wf_registry R -> compile_with stale R = Ok C ->
   (rp_ni (o_report C) <> 0 <-> spec_flag R is_nodef false = true) /\
   (rp_amb (o_report C) <> 0 <-> spec_flag R is_ambig false = true) /\
   (rp_cni (o_report C) <> 0 <-> spec_flag R is_nodef true = true) /\
